@@ -506,6 +506,108 @@ fn huge_input_family(out: &mut Outcome) {
     }
 }
 
+/// Positions beyond 2^32: the log is a `usize` long, and a position or a reservation kept in anything narrower wraps there.
+/// The buffers are allocated zeroed (lazily mapped), so only the pages that are written are ever touched: the growable target
+/// starts from a 4 GiB vector of zeros, and the fixed-slice target (thorough tier only: its cursor has to be *written* past the
+/// mark, which touches 4 GiB) from a zeroed slice. Native build only.
+/// A zeroed vector of `len` bytes with `spare` bytes of spare capacity, or None when the allocator refuses (a machine without that
+/// much address space to give is not a verdict about the code).
+fn zeroed_vec(len: usize, spare: usize) -> Option<Vec<u8>> {
+    let layout = std::alloc::Layout::array::<u8>(len + spare).ok()?;
+    // SAFETY: the layout has a non-zero size; the pointer, when not null, is a fresh zeroed allocation of exactly that layout.
+    unsafe {
+        let p = std::alloc::alloc_zeroed(layout);
+        if p.is_null() {
+            return None;
+        }
+        Some(Vec::from_raw_parts(p, len, len + spare))
+    }
+}
+
+fn huge_offset_family(out: &mut Outcome, with_slice_target: bool) {
+    const MARK: usize = 1usize << 32;
+    let data = [0xC1u8, 0xC2, 0xC3, 0xC4, 0xC5];
+    let check = |out: &mut Outcome, what: &str, buf: &[u8], pos: usize, expect_at_pos: &[u8]| {
+        out.evaluations += 1;
+        if &buf[pos..pos + expect_at_pos.len()] != expect_at_pos {
+            out.violate("huge-offset:reserved-bytes-wrong", format!("{what}: bytes at position 2^32+{} are {} expected {}", pos - MARK, hex(&buf[pos..pos + expect_at_pos.len()]), hex(expect_at_pos)), String::new());
+        }
+        // the low image of the position (position mod 2^32) and its neighbourhood must still be zero
+        let low = pos - MARK;
+        if buf[..low + 64].iter().any(|b| *b != 0) {
+            out.violate("huge-offset:wrote-near-start", format!("{what}: a write at position 2^32+{low} changed bytes near the start of the log: {}", hex(&buf[..low + 16])), String::new());
+        }
+    };
+    for lead in [0usize, 7, 40] {
+        // growable target over a vector that is already 2^32 + lead bytes long
+        let Some(mut v) = zeroed_vec(MARK + lead, if lead == 7 { 0 } else { 4096 }) else {
+            out.count("huge_offset_skipped_allocation_refused", 1);
+            continue;
+        };
+        let outcome = catch_unwind(AssertUnwindSafe(|| {
+            let mut t = VecOutputTarget::from(&mut v);
+            let mut r = t.reserve_space(8).map_err(|e| format!("reserve_space(8): {e:?}"))?;
+            t.write_bytes_exact(&[0xAB, 0xAC]).map_err(|e| format!("write_bytes_exact: {e:?}"))?;
+            t.write_bytes_into_reserved_exact(&mut r, &data[..3]).map_err(|e| format!("write into reservation (3 bytes): {e:?}"))?;
+            t.write_bytes_into_reserved_exact(&mut r, &data[3..]).map_err(|e| format!("write into reservation (2 more bytes): {e:?}"))?;
+            if t.write_bytes_into_reserved_exact(&mut r, &data[..4]).is_ok() {
+                return Err("4 bytes accepted by a reservation with 3 bytes left".to_owned());
+            }
+            Ok::<(), String>(())
+        }));
+        out.count("huge_offset_histories", 1);
+        match outcome {
+            Err(_) => out.violate(&format!("panic:{}", crate::take_last_panic().unwrap_or_default()), format!("growable target at position 2^32+{lead} panicked"), String::new()),
+            Ok(Err(why)) if why.contains("Allocation") => out.count("huge_offset_skipped_allocation_refused", 1),
+            Ok(Err(why)) => out.violate("huge-offset:fitting-op-failed", format!("growable target at position 2^32+{lead}: {why}"), String::new()),
+            Ok(Ok(())) => {
+                if v.len() != MARK + lead + 10 {
+                    out.violate("huge-offset:length", format!("growable target at 2^32+{lead}: length grew by {} instead of 10", v.len() - MARK - lead), String::new());
+                } else {
+                    check(out, "growable target", &v, MARK + lead, &[0xC1, 0xC2, 0xC3, 0xC4, 0xC5, 0, 0, 0, 0xAB, 0xAC]);
+                }
+            }
+        }
+        drop(v);
+        if !with_slice_target {
+            continue;
+        }
+        let (Some(mut mem), Some(zeros)) = (zeroed_vec(MARK + lead + 24, 0), zeroed_vec(1 << 28, 0)) else {
+            out.count("huge_offset_skipped_allocation_refused", 1);
+            continue;
+        };
+        let outcome = catch_unwind(AssertUnwindSafe(|| {
+            let mut t = SliceOutputTarget::from(&mut mem[..]);
+            let mut left = MARK + lead;
+            while left > 0 {
+                let n = left.min(zeros.len());
+                t.write_bytes_exact(&zeros[..n]).map_err(|e| format!("write_bytes_exact while advancing: {e:?}"))?;
+                left -= n;
+            }
+            let mut r = t.reserve_space(8).map_err(|e| format!("reserve_space(8): {e:?}"))?;
+            t.write_bytes_exact(&[0xAB, 0xAC]).map_err(|e| format!("write_bytes_exact: {e:?}"))?;
+            t.write_bytes_into_reserved_exact(&mut r, &data).map_err(|e| format!("write into reservation: {e:?}"))?;
+            if t.write_bytes_exact(&[0u8; 15]).is_ok() {
+                return Err("15 bytes accepted with 14 left".to_owned());
+            }
+            t.write_bytes_exact(&[0xEE; 14]).map_err(|e| format!("last 14 bytes: {e:?}"))?;
+            Ok::<(), String>(())
+        }));
+        out.count("huge_offset_histories", 1);
+        match outcome {
+            Err(_) => out.violate(&format!("panic:{}", crate::take_last_panic().unwrap_or_default()), format!("fixed-slice target at position 2^32+{lead} panicked"), String::new()),
+            Ok(Err(why)) => out.violate("huge-offset:fitting-op-failed", format!("fixed-slice target at position 2^32+{lead}: {why}"), String::new()),
+            Ok(Ok(())) => {
+                let mut expect = vec![0xC1, 0xC2, 0xC3, 0xC4, 0xC5];
+                expect.extend_from_slice(&mem[MARK + lead + 5..MARK + lead + 8].to_vec());  // the unfilled rest of the reservation: whatever it held (zeros)
+                expect.extend_from_slice(&[0xAB, 0xAC]);
+                expect.extend_from_slice(&[0xEE; 14]);
+                check(out, "fixed-slice target", &mem, MARK + lead, &expect);
+            }
+        }
+    }
+}
+
 /// Operations of 64 KiB and more on the growable target, with every kind of spare capacity in front of them (growth policies
 /// change with size; what matters is capacity counted from the length, not from the old capacity).
 fn big_vec_family(out: &mut Outcome) {
@@ -720,6 +822,9 @@ pub fn run(p: &Params) -> Outcome {
         }
         if shard == 2 % shards {
             foreign_reservation_family(&mut out);
+        }
+        if shard == 3 % shards && scale == "native" {
+            huge_offset_family(&mut out, thorough);
         }
 
         // 3. random long histories
